@@ -320,9 +320,28 @@ class Anchors:
                     s = self_attr(t)
                     if s and n.value is not None:
                         clo = def_use_closure(init, n.value)
-                        if "current_context" in clo:
+                        if "current_context" in clo or self._context_vars & set(clo):
                             return s
+        # by role: the attribute the wrapper methods forward to (`self.X.add_resource(...)` inside
+        # `add_resource`), when the wrapped context is handed in rather than looked up
+        votes: dict = {}
+        for name, m in self.ComponentContext.methods.items():
+            for c in walk_own(m.node):
+                if isinstance(c, ast.Call) and isinstance(c.func, ast.Attribute) and c.func.attr == name:
+                    x = self_attr(c.func.value)
+                    if x:
+                        votes[x] = votes.get(x, 0) + 1
+        if votes:
+            best = max(votes, key=lambda k: votes[k])
+            if votes[best] >= 3 and any(self_attr(t) == best for n in walk_own(init.node) if isinstance(n, (ast.Assign, ast.AnnAssign)) for t in (n.targets if isinstance(n, ast.Assign) else [n.target])):
+                return best
         raise AnalysisError("anchor-missing wrapped-context attribute")
+
+    @cached_property
+    def _context_vars(self) -> set:
+        """Names of the module-level ContextVar(s) of the context module (read directly instead
+        of through current_context())."""
+        return {k for k, v in self.Context.module.assigns.items() if "ContextVar" in ast.unparse(v)}
 
     @cached_property
     def children_attr(self) -> str:
@@ -374,7 +393,7 @@ class Anchors:
         raise AnalysisError("anchor-missing component starter coroutine")
 
 
-def include_rules(ctx, modname: str, as_rule: str, only: tuple = ()) -> None:
+def include_rules(ctx, modname: str, as_rule: str, only: tuple = (), drop_adopted_from: tuple = ()) -> None:
     """Run another property's rule module on the same analysis and adopt its instances under
     this property's rule id (shared obligations, e.g. C14 relies on merge_config being a deep
     right-biased merge, which C17 decides)."""
@@ -406,6 +425,8 @@ def include_rules(ctx, modname: str, as_rule: str, only: tuple = ()) -> None:
     for i0 in insts:
         if only and i0.rule not in only:
             continue
+        if drop_adopted_from and i0.why.startswith(tuple(f"[{r}]" for r in drop_adopted_from)):
+            continue  # instances the other module adopted from the includer itself
         i = _copy.copy(i0)
         i.why = f"[{i.rule}] {i.why}"
         i.rule = as_rule
